@@ -17,7 +17,8 @@ theorem bind_eq_ok {ε α β : Type} {x : Except ε α} {f : α → Except ε β
   | ok a => simp [bind, Except.bind]
 
 theorem mapM_eq_ok_iff {ε α β : Type} {f : α → Except ε β} :
-    ∀ {l : List α} {r : List β}, l.mapM f = .ok r ↔ List.Forall₂ (fun x y => f x = .ok y) l r
+    ∀ {l : List α} {r : List β}, l.mapM f = .ok r ↔
+      r.length = l.length ∧ ∀ i (h₁ : i < l.length) (h₂ : i < r.length), f l[i] = .ok r[i]
   | [], r => by
     cases r <;> simp [pure, Except.pure]
   | x :: l, r => by
@@ -27,10 +28,580 @@ theorem mapM_eq_ok_iff {ε α β : Type} {f : α → Except ε β} :
       rw [bind_eq_ok] at h
       obtain ⟨ys, hys, h⟩ := h
       cases h
-      exact List.Forall₂.cons hy (mapM_eq_ok_iff.1 hys)
-    · intro h
-      cases h with
-      | cons hy hys =>
-        exact ⟨_, hy, by rw [mapM_eq_ok_iff.2 hys]; rfl⟩
+      obtain ⟨hl, hi⟩ := mapM_eq_ok_iff.1 hys
+      refine ⟨by simp [hl], ?_⟩
+      intro i h₁ h₂
+      cases i with
+      | zero => simpa using hy
+      | succ i => simpa using hi i (by simpa using h₁) (by simpa using h₂)
+    · rintro ⟨hl, hi⟩
+      cases r with
+      | nil => simp at hl
+      | cons y ys =>
+        refine ⟨y, hi 0 (by simp) (by simp), ?_⟩
+        have : l.mapM f = .ok ys := mapM_eq_ok_iff.2 ⟨by simpa using hl, fun i h₁ h₂ =>
+          hi (i+1) (by simpa using h₁) (by simpa using h₂)⟩
+        rw [this]; rfl
+
+/-! ### evaluation equations -/
+
+theorem evalList_eq_map (σ : Asg) : ∀ l : List Expr, evalList σ l = l.map (eval σ)
+  | [] => by simp [evalList]
+  | e :: r => by simp [evalList, evalList_eq_map σ r]
+
+@[simp] theorem eval_node (σ : Asg) (op : Op) (args : List Expr) :
+    eval σ (.node op args) = evalOp op (args.map (eval σ)) := by
+  rw [eval, evalList_eq_map]
+
+@[simp] theorem eval_bvar (σ : Asg) (id : Nat) : eval σ (.bvar id) = some (.b (σ.b id)) := by rw [eval]
+@[simp] theorem eval_ivar (σ : Asg) (id : Nat) : eval σ (.ivar id) = some (.i (σ.i id)) := by rw [eval]
+@[simp] theorem eval_litB (σ : Asg) (b : Bool) : eval σ (.litB b) = some (.b b) := by rw [eval]
+@[simp] theorem eval_litI (σ : Asg) (n : Int) : eval σ (.litI n) = some (.i n) := by rw [eval]
+@[simp] theorem eval_litNone (σ : Asg) : eval σ .litNone = none := by rw [eval]
+
+@[simp] theorem allInts_map_some (ns : List Int) : allInts (ns.map fun n => some (.i n)) = some ns := by
+  induction ns with
+  | nil => rfl
+  | cons n r ih => simp [allInts, ih]
+
+@[simp] theorem allBools_map_some (bs : List Bool) : allBools (bs.map fun b => some (.b b)) = some bs := by
+  induction bs with
+  | nil => rfl
+  | cons n r ih => simp [allBools, ih]
+
+theorem foldl_add_eq_sum (r : List Int) : ∀ a : Int, r.foldl (· + ·) a = a + r.sum := by
+  induction r with
+  | nil => simp
+  | cons x r ih => intro a; simp [ih]; omega
+
+/-- `ADD` node over integer-valued operands. -/
+theorem evalOp_add_ints {ns : List Int} (h : ns ≠ []) :
+    evalOp .add (ns.map fun n => some (.i n)) = some (.i ns.sum) := by
+  cases ns with
+  | nil => exact absurd rfl h
+  | cons a r =>
+    have := allInts_map_some (a :: r)
+    simp only [List.map_cons] at this
+    simp [evalOp, this, foldl_add_eq_sum]
+
+theorem evalOp_cmp {op : Op} (h : op.isCmp = true) (a b : Int) :
+    evalOp op [some (.i a), some (.i b)] = some (.b (cmpOp op a b)) := by
+  cases op <;> simp [Op.isCmp] at h <;> simp [evalOp, allInts]
+
+theorem evalOp_and (bs : List Bool) :
+    evalOp .and (bs.map fun b => some (.b b)) = some (.b (bs.all id)) := by
+  simp [evalOp]
+
+theorem evalOp_or (bs : List Bool) :
+    evalOp .or (bs.map fun b => some (.b b)) = some (.b (bs.any id)) := by
+  simp [evalOp]
+
+theorem evalOp_imp (a b : Bool) : evalOp .imp [some (.b a), some (.b b)] = some (.b (!a || b)) := by
+  simp [evalOp, allBools]
+
+/-! ### `count_true` -/
+
+/-- Non-literal operands of `count_true`, each wrapped as `x.cond(1, 0)`. -/
+def ctOps : List Expr → List Expr
+  | [] => []
+  | .litB _ :: r => ctOps r
+  | x :: r => .node .ite [x, .litI 1, .litI 0] :: ctOps r
+
+/-- Number of Python `True` literals among the operands (constant-folded by `count_true`). -/
+def ctConst : List Expr → Nat
+  | [] => 0
+  | .litB true :: r => ctConst r + 1
+  | _ :: r => ctConst r
+
+/-- The expression `count_true` returns on Boolean operands. -/
+def countTrueE (xs : List Expr) : Expr :=
+  let ops := if ctConst xs > 0 then ctOps xs ++ [.litI (ctConst xs)] else ctOps xs
+  if ops.isEmpty then .node .intConst [.litI 0] else .node .add ops
+
+theorem isBoolLike_iff (x : Expr) : x.isBoolLike = ((match x with | .litB _ => true | _ => false) || x.isBoolExpr) := by
+  cases x <;> simp [Expr.isBoolLike, Expr.isBoolExpr]
+
+theorem countTrue_go_eq (xs : List Expr) : ∀ (c : Nat) (acc : List Expr),
+    countTrue.go xs c acc =
+      if xs.all Expr.isBoolLike then .ok (c + ctConst xs, acc.reverse ++ ctOps xs) else .error .typeError := by
+  induction xs with
+  | nil => intro c acc; simp [countTrue.go, ctConst, ctOps]
+  | cons x r ih =>
+    intro c acc
+    cases x with
+    | litB b =>
+      cases b
+      · simp [countTrue.go, ih, ctConst, ctOps, Expr.isBoolLike]
+      · simp [countTrue.go, ih, ctConst, ctOps, Expr.isBoolLike]
+        rw [show c + 1 + ctConst r = c + (ctConst r + 1) by omega]
+    | bvar id => simp [countTrue.go, ih, ctConst, ctOps, Expr.isBoolLike, Expr.isBoolExpr]
+    | ivar id => simp [countTrue.go, Expr.isBoolLike, Expr.isBoolExpr]
+    | litI n => simp [countTrue.go, Expr.isBoolLike, Expr.isBoolExpr]
+    | litNone => simp [countTrue.go, Expr.isBoolLike, Expr.isBoolExpr]
+    | node op args =>
+      by_cases h : (Expr.node op args).isBoolExpr = true
+      · have h' : (Expr.node op args).isBoolLike = true := h
+        simp [countTrue.go, ih, ctConst, ctOps, h, h']
+      · have h' : ¬ (Expr.node op args).isBoolLike = true := h
+        simp [countTrue.go, h, h']
+
+/-- Closed form of `count_true`: it succeeds exactly on `BoolExpr`/`bool` operands. -/
+theorem countTrue_eq (xs : List Expr) :
+    countTrue xs = if xs.all Expr.isBoolLike then .ok (countTrueE xs) else .error .typeError := by
+  unfold countTrue
+  rw [countTrue_go_eq]
+  by_cases h : xs.all Expr.isBoolLike = true
+  · simp only [h, if_true]
+    simp only [bind, Except.bind, countTrueE, Nat.zero_add, List.reverse_nil, List.nil_append]
+    generalize (if ctConst xs > 0 then ctOps xs ++ [Expr.litI (ctConst xs : Nat)] else ctOps xs) = ops
+    split <;> rfl
+  · simp only [h]
+    simp [bind, Except.bind]
+
+theorem countTrue_ok_of_boolLike {xs : List Expr} (h : ∀ x ∈ xs, x.isBoolLike = true) :
+    countTrue xs = .ok (countTrueE xs) := by
+  rw [countTrue_eq, if_pos (by simpa using h)]
+
+theorem countTrue_ok_iff {xs : List Expr} {e : Expr} :
+    countTrue xs = .ok e ↔ (∀ x ∈ xs, x.isBoolLike = true) ∧ e = countTrueE xs := by
+  rw [countTrue_eq]
+  by_cases h : xs.all Expr.isBoolLike = true
+  · simp only [h, if_true]
+    constructor
+    · intro h'; cases h'; exact ⟨by simpa using h, rfl⟩
+    · rintro ⟨_, rfl⟩; rfl
+  · simp only [h]
+    constructor
+    · intro h'; cases h'
+    · rintro ⟨h', _⟩; exact absurd (by simpa using h') h
+
+theorem countTrue_typeError {xs : List Expr} (h : ∃ x ∈ xs, x.isBoolLike = false) :
+    countTrue xs = .error .typeError := by
+  rw [countTrue_eq, if_neg]
+  simpa using h
+
+theorem evalOp_ite (c : Bool) (t f : Int) :
+    evalOp .ite [some (.b c), some (.i t), some (.i f)] = some (.i (if c then t else f)) := by
+  simp [evalOp]
+
+theorem eval_ite {σ : Asg} {c t f : Expr} {b : Bool} {x y : Int} (hc : eval σ c = some (.b b))
+    (ht : eval σ t = some (.i x)) (hf : eval σ f = some (.i y)) :
+    eval σ (.node .ite [c, t, f]) = some (.i (if b then x else y)) := by
+  simp [hc, ht, hf, evalOp_ite]
+
+theorem eval_ctOps {σ : Asg} : ∀ (xs : List Expr) (bs : List Bool),
+    xs.map (eval σ) = bs.map (fun b => some (.b b)) →
+    ∃ ns : List Int, (ctOps xs).map (eval σ) = ns.map (fun n => some (.i n)) ∧
+      (ctConst xs : Int) + ns.sum = (bs.count true : Nat)
+  | [], bs, h => by
+    cases bs with
+    | nil => exact ⟨[], by simp [ctOps, ctConst]⟩
+    | cons b bs => simp at h
+  | x :: r, bs, h => by
+    cases bs with
+    | nil => simp at h
+    | cons b bs =>
+      simp only [List.map_cons, List.cons.injEq] at h
+      obtain ⟨ns, hns, hsum⟩ := eval_ctOps r bs h.2
+      have hx := h.1
+      cases x with
+      | litB v =>
+        refine ⟨ns, by simpa [ctOps] using hns, ?_⟩
+        simp at hx
+        subst hx
+        cases v <;> simp [ctConst] <;> omega
+      | bvar id =>
+        refine ⟨(if b then 1 else 0) :: ns, ?_, ?_⟩
+        · simp only [ctOps, List.map_cons, hns]
+          rw [eval_ite hx (eval_litI σ 1) (eval_litI σ 0)]
+        · cases b <;> simp [ctConst] <;> omega
+      | node op args =>
+        refine ⟨(if b then 1 else 0) :: ns, ?_, ?_⟩
+        · simp only [ctOps, List.map_cons, hns]
+          rw [eval_ite hx (eval_litI σ 1) (eval_litI σ 0)]
+        · cases b <;> simp [ctConst] <;> omega
+      | ivar id => simp at hx
+      | litI n => simp at hx
+      | litNone => simp at hx
+
+/-- `count_true` evaluates to the number of true operands. -/
+theorem eval_countTrueE {σ : Asg} {xs : List Expr} (bs : List Bool)
+    (h : xs.map (eval σ) = bs.map (fun b => some (.b b))) :
+    eval σ (countTrueE xs) = some (.i (bs.count true : Nat)) := by
+  obtain ⟨ns, hns, hsum⟩ := eval_ctOps xs bs h
+  unfold countTrueE
+  by_cases hc : ctConst xs > 0
+  · simp only [hc, if_true]
+    have hne : (ctOps xs ++ [Expr.litI (ctConst xs : Nat)]).isEmpty = false := by simp
+    rw [hne]
+    simp only [Bool.false_eq_true, if_false, eval_node, List.map_append, hns, List.map_cons, eval_litI, List.map_nil]
+    have := evalOp_add_ints (ns := ns ++ [(ctConst xs : Int)]) (by simp)
+    simp only [List.map_append, List.map_cons, List.map_nil] at this
+    rw [this]
+    simp; omega
+  · simp only [hc, if_false]
+    have hc0 : ctConst xs = 0 := by omega
+    cases hns' : ctOps xs with
+    | nil =>
+      rw [hns'] at hns
+      cases ns with
+      | nil => simp [evalOp]; simp [hc0] at hsum; omega
+      | cons n ns => simp at hns
+    | cons y ys =>
+      rw [hns'] at hns
+      simp only [List.isEmpty_cons, Bool.false_eq_true, if_false, eval_node, hns]
+      rw [evalOp_add_ints (by intro h0; subst h0; simp at hns)]
+      simp [hc0] at hsum
+      simp; omega
+
+theorem eval_countTrue {σ : Asg} {xs : List Expr} {e : Expr} (bs : List Bool)
+    (he : countTrue xs = .ok e) (h : xs.map (eval σ) = bs.map (fun b => some (.b b))) :
+    eval σ e = some (.i (bs.count true : Nat)) := by
+  rw [(countTrue_ok_iff.1 he).2]; exact eval_countTrueE bs h
+
+/-- Functional form: every operand `x` evaluates to the Boolean `f x`. -/
+theorem eval_countTrue_of_forall {σ : Asg} {xs : List Expr} {e : Expr} (f : Expr → Bool)
+    (he : countTrue xs = .ok e) (h : ∀ x ∈ xs, eval σ x = some (.b (f x))) :
+    eval σ e = some (.i ((xs.filter f).length : Nat)) := by
+  have := eval_countTrue (σ := σ) (xs.map f) he (by
+    rw [List.map_map]; exact List.map_congr_left h)
+  rw [this, List.count_eq_countP, List.countP_map, List.countP_eq_length_filter]
+  congr 4
+  apply List.filter_congr
+  intro x _; simp
+
+/-! ### well-typed trees evaluate -/
+
+theorem wtB_isBoolLike : ∀ e : Expr, wtB e = true → e.isBoolLike = true
+  | .bvar _, _ => rfl
+  | .litB _, _ => rfl
+  | .ivar _, h => by simp [wtB] at h
+  | .litI _, h => by simp [wtB] at h
+  | .litNone, h => by simp [wtB] at h
+  | .node op args, h => by
+    cases op <;> first | rfl | (simp [wtB] at h)
+
+theorem wtI_isIntLike : ∀ e : Expr, wtI e = true → e.isIntLike = true
+  | .ivar _, _ => rfl
+  | .litI _, _ => rfl
+  | .bvar _, h => by simp [wtI] at h
+  | .litB _, h => by simp [wtI] at h
+  | .litNone, h => by simp [wtI] at h
+  | .node op args, h => by
+    cases op <;> first | rfl | (simp [wtI] at h)
+
+mutual
+theorem wtB_eval (σ : Asg) : ∀ e : Expr, wtB e = true → ∃ b, eval σ e = some (.b b)
+  | .bvar _, _ => ⟨_, eval_bvar ..⟩
+  | .litB _, _ => ⟨_, eval_litB ..⟩
+  | .ivar _, h => by simp [wtB] at h
+  | .litI _, h => by simp [wtB] at h
+  | .litNone, h => by simp [wtB] at h
+  | .node op args, h => by
+    rw [eval_node]
+    cases op <;> simp only [wtB, Bool.and_eq_true, beq_iff_eq, Bool.false_eq_true] at h
+    case boolConst =>
+      split at h
+      · simp [evalOp]
+      · cases h
+    case eq | ne | le | lt | ge | gt =>
+      all_goals
+        obtain ⟨ns, hns⟩ := wtIs_eval σ args h.2
+        rw [hns]
+        have hl : ns.length = 2 := by
+          have := congrArg List.length hns; simp at this; omega
+        match ns, hl with
+        | [a, b], _ => exact ⟨_, evalOp_cmp rfl a b⟩
+    case not =>
+      obtain ⟨bs, hbs⟩ := wtBs_eval σ args h.2
+      rw [hbs]
+      have hl : bs.length = 1 := by
+        have := congrArg List.length hbs; simp at this; omega
+      match bs, hl with
+      | [a], _ => simp [evalOp]
+    case and =>
+      obtain ⟨bs, hbs⟩ := wtBs_eval σ args h
+      rw [hbs]; exact ⟨_, evalOp_and bs⟩
+    case or =>
+      obtain ⟨bs, hbs⟩ := wtBs_eval σ args h
+      rw [hbs]; exact ⟨_, evalOp_or bs⟩
+    case iff | xor | imp =>
+      all_goals
+        obtain ⟨bs, hbs⟩ := wtBs_eval σ args h.2
+        rw [hbs]
+        have hl : bs.length = 2 := by
+          have := congrArg List.length hbs; simp at this; omega
+        match bs, hl with
+        | [a, b], _ => simp [evalOp, allBools]
+    case alldiff =>
+      obtain ⟨ns, hns⟩ := wtIs_eval σ args h
+      rw [hns]; simp [evalOp]
+theorem wtI_eval (σ : Asg) : ∀ e : Expr, wtI e = true → ∃ n, eval σ e = some (.i n)
+  | .ivar _, _ => ⟨_, eval_ivar ..⟩
+  | .litI _, _ => ⟨_, eval_litI ..⟩
+  | .bvar _, h => by simp [wtI] at h
+  | .litB _, h => by simp [wtI] at h
+  | .litNone, h => by simp [wtI] at h
+  | .node op args, h => by
+    cases op <;> (try simp only [wtI, Bool.and_eq_true, beq_iff_eq, bne_iff_ne, Bool.false_eq_true] at h)
+    case intConst =>
+      rw [eval_node]
+      split at h
+      · simp [evalOp]
+      · cases h
+    case neg =>
+      rw [eval_node]
+      obtain ⟨ns, hns⟩ := wtIs_eval σ args h.2
+      rw [hns]
+      have hl : ns.length = 1 := by
+        have := congrArg List.length hns; simp at this; omega
+      match ns, hl with
+      | [a], _ => simp [evalOp]
+    case add =>
+      rw [eval_node]
+      obtain ⟨ns, hns⟩ := wtIs_eval σ args h.2
+      rw [hns]
+      have hl : ns ≠ [] := by
+        intro h0; subst h0; simp at hns; exact h.1 (by simp [hns])
+      exact ⟨_, evalOp_add_ints hl⟩
+    case sub =>
+      rw [eval_node]
+      obtain ⟨ns, hns⟩ := wtIs_eval σ args h.2
+      rw [hns]
+      cases ns with
+      | nil => simp at hns; exact absurd (by simp [hns]) h.1
+      | cons a r =>
+        have := allInts_map_some (a :: r)
+        simp only [List.map_cons] at this
+        simp [evalOp, this]
+    case ite =>
+      match args, h with
+      | [], h | [_], h | [_, _], h | _ :: _ :: _ :: _ :: _, h => simp [wtI] at h
+      | [c, t, f], h =>
+        simp only [wtI, Bool.and_eq_true] at h
+        obtain ⟨b, hb⟩ := wtB_eval σ c h.1.1
+        obtain ⟨x, hx⟩ := wtI_eval σ t h.1.2
+        obtain ⟨y, hy⟩ := wtI_eval σ f h.2
+        exact ⟨_, eval_ite hb hx hy⟩
+theorem wtBs_eval (σ : Asg) : ∀ l : List Expr, wtBs l = true →
+    ∃ bs : List Bool, l.map (eval σ) = bs.map (fun b => some (.b b))
+  | [], _ => ⟨[], rfl⟩
+  | e :: r, h => by
+    simp only [wtBs, Bool.and_eq_true] at h
+    obtain ⟨b, hb⟩ := wtB_eval σ e h.1
+    obtain ⟨bs, hbs⟩ := wtBs_eval σ r h.2
+    exact ⟨b :: bs, by simp [hb, hbs]⟩
+theorem wtIs_eval (σ : Asg) : ∀ l : List Expr, wtIs l = true →
+    ∃ ns : List Int, l.map (eval σ) = ns.map (fun n => some (.i n))
+  | [], _ => ⟨[], rfl⟩
+  | e :: r, h => by
+    simp only [wtIs, Bool.and_eq_true] at h
+    obtain ⟨n, hn⟩ := wtI_eval σ e h.1
+    obtain ⟨ns, hns⟩ := wtIs_eval σ r h.2
+    exact ⟨n :: ns, by simp [hn, hns]⟩
+end
+
+/-! ### locality: only the variables below `base` matter -/
+
+mutual
+theorem eval_congr_of_varsBelow {base : Nat} {σ σ' : Asg} (h : AgreeBelow base σ σ') :
+    ∀ e : Expr, e.varsBelow base = true → eval σ e = eval σ' e
+  | .bvar id, hv => by
+    simp only [Expr.varsBelow, decide_eq_true_eq] at hv
+    simp [(h id hv).1]
+  | .ivar id, hv => by
+    simp only [Expr.varsBelow, decide_eq_true_eq] at hv
+    simp [(h id hv).2]
+  | .litB _, _ => by simp
+  | .litI _, _ => by simp
+  | .litNone, _ => by simp
+  | .node op args, hv => by
+    simp only [Expr.varsBelow] at hv
+    rw [eval_node, eval_node, evalList_congr_of_varsBelow h args hv]
+theorem evalList_congr_of_varsBelow {base : Nat} {σ σ' : Asg} (h : AgreeBelow base σ σ') :
+    ∀ l : List Expr, Expr.varsBelow.varsBelowList base l = true → l.map (eval σ) = l.map (eval σ')
+  | [], _ => rfl
+  | e :: r, hv => by
+    simp only [Expr.varsBelow.varsBelowList, Bool.and_eq_true] at hv
+    simp [eval_congr_of_varsBelow h e hv.1, evalList_congr_of_varsBelow h r hv.2]
+end
+
+theorem AgreeBelow.refl (base : Nat) (σ : Asg) : AgreeBelow base σ σ := fun _ _ => ⟨rfl, rfl⟩
+
+/-- A caller-supplied Boolean argument evaluates, under any extension `σ'` of `σ`, to its `truthAt`. -/
+theorem eval_boolArg {base : Nat} {σ σ' : Asg} {l : List Expr} (hl : BoolArgs base l)
+    (h : AgreeBelow base σ σ') {j : Nat} (hj : j < l.length) :
+    eval σ' l[j] = some (.b (truthAt σ l j)) := by
+  have hm : l[j] ∈ l := List.getElem_mem hj
+  obtain ⟨hw, hv⟩ := hl _ hm
+  rw [← eval_congr_of_varsBelow h _ hv]
+  obtain ⟨b, hb⟩ := wtB_eval σ _ hw
+  simp only [truthAt, List.getElem?_eq_getElem hj, hb]
+  cases b <;> rfl
+
+theorem boolArg_isBoolLike {base : Nat} {l : List Expr} (hl : BoolArgs base l) {j : Nat}
+    (hj : j < l.length) : l[j].isBoolLike = true :=
+  wtB_isBoolLike _ (hl _ (List.getElem_mem hj)).1
+
+/-! ### DSL constructors -/
+
+theorem getE_eq_ok {l : List Expr} {i : Nat} (h : i < l.length) : getE l i = .ok l[i] := by
+  simp [getE, List.getElem?_eq_getElem h]
+
+theorem getE_ok_iff {l : List Expr} {i : Nat} {e : Expr} :
+    getE l i = .ok e ↔ ∃ h : i < l.length, l[i] = e := by
+  unfold getE
+  by_cases h : i < l.length
+  · simp [h]
+  · simp [h]
+
+/-- `a & b` with a non-literal left operand builds an `AND` node. -/
+theorem andPy_node {op : Op} {args : List Expr} {b : Expr}
+    (ha : (Expr.node op args).isBoolLike = true) (hb : b.isBoolLike = true) :
+    andPy (.node op args) b = .ok (.node .and [.node op args, b]) := by
+  simp [andPy, ha, hb]
+
+theorem andPy_bvar {id : Nat} {b : Expr} (hb : b.isBoolLike = true) :
+    andPy (.bvar id) b = .ok (.node .and [.bvar id, b]) := by
+  have ha : (Expr.bvar id).isBoolLike = true := rfl
+  simp [andPy, ha, hb]
+
+/-- Whatever form `a & b` takes (folded literal or `AND` node), it evaluates to the conjunction. -/
+theorem eval_andPy {σ : Asg} {a b e : Expr} {x y : Bool} (h : andPy a b = .ok e)
+    (ha : eval σ a = some (.b x)) (hb : eval σ b = some (.b y)) : eval σ e = some (.b (x && y)) := by
+  unfold andPy at h
+  split at h
+  · cases h; simp at ha hb; simp [ha, hb]
+  · split at h
+    · cases h; simp [ha, hb, evalOp, allBools]
+    · cases h
+
+theorem andPy_ok_of_boolLike {a b : Expr} (ha : a.isBoolLike = true) (hb : b.isBoolLike = true) :
+    ∃ e, andPy a b = .ok e ∧ e.isBoolLike = true := by
+  unfold andPy
+  split
+  · exact ⟨_, rfl, rfl⟩
+  · rw [ha, hb]; exact ⟨_, rfl, rfl⟩
+
+theorem eval_and2 {σ : Asg} {a b : Expr} {x y : Bool}
+    (ha : eval σ a = some (.b x)) (hb : eval σ b = some (.b y)) :
+    eval σ (.node .and [a, b]) = some (.b (x && y)) := by
+  simp [ha, hb, evalOp, allBools]
+
+theorem eval_thenRaw {σ : Asg} {a b : Expr} {x y : Bool}
+    (ha : eval σ a = some (.b x)) (hb : eval σ b = some (.b y)) :
+    eval σ (thenRaw a b) = some (.b (!x || y)) := by
+  simp [thenRaw, ha, hb, evalOp_imp]
+
+theorem eval_cmp {σ : Asg} {op : Op} (hop : op.isCmp = true) {a b : Expr} {x y : Int}
+    (ha : eval σ a = some (.i x)) (hb : eval σ b = some (.i y)) :
+    eval σ (.node op [a, b]) = some (.b (cmpOp op x y)) := by
+  simp [ha, hb, evalOp_cmp hop]
+
+theorem eval_not {σ : Asg} {a : Expr} {x : Bool} (ha : eval σ a = some (.b x)) :
+    eval σ (.node .not [a]) = some (.b (!x)) := by
+  simp [ha, evalOp]
+
+@[simp] theorem cmpOp_lt (a b : Int) : cmpOp .lt a b = decide (a < b) := rfl
+@[simp] theorem cmpOp_le (a b : Int) : cmpOp .le a b = decide (a ≤ b) := rfl
+@[simp] theorem cmpOp_gt (a b : Int) : cmpOp .gt a b = decide (a > b) := rfl
+@[simp] theorem cmpOp_ge (a b : Int) : cmpOp .ge a b = decide (a ≥ b) := rfl
+@[simp] theorem cmpOp_eq (a b : Int) : cmpOp .eq a b = (a == b) := rfl
+@[simp] theorem cmpOp_ne (a b : Int) : cmpOp .ne a b = (a != b) := rfl
+
+/-! ### `mapM` helpers -/
+
+/-- Transport a pointwise relation through a successful `mapM`. -/
+theorem map_eq_map_of_mapM_ok {ε α β γ : Type} {f : α → Except ε β} {g : β → γ} {h : α → γ}
+    {l : List α} {r : List β} (hm : l.mapM f = .ok r)
+    (hp : ∀ x ∈ l, ∀ y, f x = .ok y → g y = h x) : r.map g = l.map h := by
+  obtain ⟨hl, hi⟩ := mapM_eq_ok_iff.1 hm
+  apply List.ext_getElem (by simp [hl])
+  intro i h₁ h₂
+  simp only [List.getElem_map]
+  simp only [List.length_map] at h₁ h₂
+  exact hp _ (List.getElem_mem h₂) _ (hi i h₂ h₁)
+
+theorem mem_of_mapM_ok {ε α β : Type} {f : α → Except ε β} {l : List α} {r : List β}
+    (hm : l.mapM f = .ok r) {y : β} (hy : y ∈ r) : ∃ x ∈ l, f x = .ok y := by
+  obtain ⟨hl, hi⟩ := mapM_eq_ok_iff.1 hm
+  obtain ⟨i, hi', rfl⟩ := List.getElem_of_mem hy
+  exact ⟨l[i]'(by omega), List.getElem_mem _, hi i (by omega) hi'⟩
+
+/-- `mapM` succeeds when every call succeeds. -/
+theorem mapM_ok_of_forall {ε α β : Type} {f : α → Except ε β} :
+    ∀ {l : List α}, (∀ x ∈ l, ∃ y, f x = .ok y) → ∃ r, l.mapM f = .ok r
+  | [], _ => ⟨[], rfl⟩
+  | x :: l, h => by
+    obtain ⟨y, hy⟩ := h x (by simp)
+    obtain ⟨r, hr⟩ := mapM_ok_of_forall (l := l) (fun x hx => h x (by simp [hx]))
+    exact ⟨y :: r, by rw [List.mapM_cons, hy, hr]; rfl⟩
+
+/-- `mapM` of a function that is pointwise `.ok (g x)` on the list is `.ok (l.map g)`. -/
+theorem mapM_eq_ok_map {ε α β : Type} {f : α → Except ε β} {g : α → β} :
+    ∀ {l : List α}, (∀ x ∈ l, f x = .ok (g x)) → l.mapM f = .ok (l.map g)
+  | [], _ => rfl
+  | x :: l, h => by
+    rw [List.mapM_cons, h x (by simp), mapM_eq_ok_map (l := l) (fun x hx => h x (by simp [hx]))]; rfl
+
+@[simp] theorem ok_bind {ε α β : Type} (a : α) (f : α → Except ε β) : (Except.ok a >>= f) = f a := rfl
+@[simp] theorem error_bind {ε α β : Type} (e : ε) (f : α → Except ε β) :
+    ((Except.error e : Except ε α) >>= f) = .error e := rfl
+
+/-! ### graph incidence -/
+
+
+theorem mem_incident {g : Graph} {v : Nat} {je : Nat × Nat} :
+    je ∈ g.incident v ↔ ∃ a b, g.edges[je.2]? = some (a, b) ∧ ((a = v ∧ je.1 = b) ∨ (b = v ∧ je.1 = a)) := by
+  unfold Graph.incident
+  simp only [List.mem_flatMap, List.mem_append, Prod.exists, List.mem_zipIdx_iff_getElem?]
+  constructor
+  · rintro ⟨a, b, e, he, h⟩
+    rcases h with h | h
+    · split at h
+      · simp at h; subst h; exact ⟨a, b, he, .inl ⟨by assumption, rfl⟩⟩
+      · simp at h
+    · split at h
+      · simp at h; subst h; exact ⟨a, b, he, .inr ⟨by assumption, rfl⟩⟩
+      · simp at h
+  · rintro ⟨a, b, he, h⟩
+    refine ⟨a, b, je.2, he, ?_⟩
+    rcases h with ⟨h1, h2⟩ | ⟨h1, h2⟩
+    · left; simp [h1, ← h2]
+    · right; simp [h1, ← h2]
+
+theorem incident_bounds {g : Graph} (hwf : g.wf = true) {v : Nat} {je : Nat × Nat}
+    (h : je ∈ g.incident v) : je.1 < g.n ∧ je.2 < g.edges.length ∧ v < g.n := by
+  obtain ⟨a, b, he, h⟩ := mem_incident.1 h
+  have hlt : je.2 < g.edges.length := by
+    rcases Nat.lt_or_ge je.2 g.edges.length with h | h
+    · exact h
+    · rw [List.getElem?_eq_none h] at he; cases he
+  have hm : (a, b) ∈ g.edges := List.mem_of_getElem? he
+  have := List.all_eq_true.1 hwf _ hm
+  simp only [Bool.and_eq_true, decide_eq_true_eq] at this
+  rcases h with ⟨h1, h2⟩ | ⟨h1, h2⟩ <;> (subst h1; rw [h2]; exact ⟨by omega, hlt, by omega⟩)
+
+/-! ### declarations -/
+
+/-- Bounds demanded by a block of `int_array` declarations followed by Boolean ones. -/
+theorem sat_rank_decls {n : Nat} {lo hi : Int} {rest : List VarDecl} (hrest : ∀ d ∈ rest, d = .bool)
+    (r : Nat → Int) :
+    (∀ k lo' hi', (List.replicate n (VarDecl.int lo hi) ++ rest)[k]? = some (.int lo' hi') →
+        lo' ≤ r k ∧ r k ≤ hi') ↔ ∀ i, i < n → lo ≤ r i ∧ r i ≤ hi := by
+  constructor
+  · intro h i hi'
+    apply h i lo hi
+    rw [List.getElem?_append_left (by simpa using hi')]
+    simp [hi']
+  · intro h k lo' hi' hk
+    by_cases hkn : k < n
+    · rw [List.getElem?_append_left (by simpa using hkn)] at hk
+      simp [hkn] at hk
+      obtain ⟨rfl, rfl⟩ := hk
+      exact h k hkn
+    · rw [List.getElem?_append_right (by simpa using hkn)] at hk
+      have := hrest _ (List.mem_of_getElem? hk)
+      cases this
 
 end Cspuz.Proofs
